@@ -27,16 +27,17 @@ def run(ctx):
                                                   ('ExitInterrupted' in ef[0] and 'exit_status' in ef[0])))
                 if interrupted and s is not None:
                     n += 1
-                    r = build.find_path(None, lambda x: x['k'] == 'ret', from_succ=s,
+                    known = frozenset((x[0], x[1]) for x in build.edge_facts(bid, i))     # what this edge established
+                    r = build.find_path(None, lambda x: x['k'] == 'ret', from_succ=s, init_facts=known,
                                         is_blocker=lambda x: x['k'] == 'call' and x.get('name') == 'Builder::Cleanup')
                     ctx.check('C07.O1', r is None, build.name, 'interrupt:return-without-Cleanup', 'src/build.cc:%s' % build.term(bid)['line'],
                               'an interrupt (%s) returns only after Cleanup()' % ef[0][:60])
                     r = build.find_path(None, lambda x: x['k'] == 'ret' and not mentions_call(x.get('e'), 'BuildResult::exit_status'),
-                                        from_succ=s, is_blocker=lambda x: x['k'] == 'ret')
+                                        from_succ=s, is_blocker=lambda x: x['k'] == 'ret', init_facts=known)
                     ctx.check('C07.O1', r is None, build.name, 'interrupt:wrong-status', 'src/build.cc:%s' % build.term(bid)['line'],
                               'the interrupt path returns result.exit_status()')
                     r = build.find_path(None, lambda x: x['k'] == 'call' and x.get('name') in ('Builder::StartEdge', 'Plan::FindWork'),
-                                        from_succ=s, is_blocker=lambda x: x['k'] == 'ret')
+                                        from_succ=s, is_blocker=lambda x: x['k'] == 'ret', init_facts=known)
                     ctx.check('C07.O1', r is None, build.name, 'interrupt:starts-more-work', 'src/build.cc:%s' % build.term(bid)['line'],
                               'nothing is started after an interrupt was seen')
     ctx.check('C07.O1', n >= 2, build.name, 'interrupt:tests-absent', build.loc, 'Build tests interrupted() and ExitInterrupted (%d edges)' % n)
